@@ -54,11 +54,13 @@ def faces_ccw_exact(nodes_q, faces):
     return True
 
 
-def face_convex_exact(nodes_q, f):
-    """no reflex corner (straight corners allowed), exact: (a x b) . c >= 0 for consecutive corners a, b, c"""
+def face_convex(nodes, f, tol=1e-9):
+    """no corner reflex by more than tol: (a x b) . c >= -tol for consecutive corners a, b, c (straight corners,
+    e.g. subdivided edges, count as convex)"""
     k = len(f)
     for i in range(k):
-        if dot(cross(nodes_q[f[i]], nodes_q[f[(i + 1) % k]]), nodes_q[f[(i + 2) % k]]) < 0:
+        a, b, c = nodes[f[i]], nodes[f[(i + 1) % k]], nodes[f[(i + 2) % k]]
+        if dot(cross(a, b), c) < -tol:
             return False
     return True
 
@@ -387,8 +389,8 @@ def gen_cases(ck):
             c = json.load(open(os.path.join(cdir, fn)))
             c["kind"] = "corpus"
             cases.append(c)
-    plan = [("fan", 20 if quick else 150), ("poly", 30 if quick else 100), ("closed", 110 if quick else 1500), ("refined", 20 if quick else 150),
-            ("antimeridian", 30 if quick else 300), ("partial", 80 if quick else 1200)]
+    plan = [("fan", 20 if quick else 300), ("poly", 30 if quick else 100), ("closed", 110 if quick else 3000), ("refined", 20 if quick else 300),
+            ("antimeridian", 30 if quick else 600), ("partial", 80 if quick else 2400)]
     for kind, n in plan:
         for _ in range(n):
             cases.append(gen_case(rng, ck.tier, kind))
@@ -480,12 +482,27 @@ def prepare(c):
     # counter-clockwise in exact arithmetic
     de = [(f[i], f[(i + 1) % len(f)]) for f in faces for i in range(len(f))]
     c["ccw_ok"] = len(set(de)) == len(de) and faces_ccw_exact(nodes_q, faces)
-    c["convex"] = [face_convex_exact(nodes_q, f) for f in faces]
+    c["convex"] = [face_convex(c["nodes"], f) for f in faces]
 
 
 def model_line(c, g):
     v, _ = scaled_vecs([g.node_x.values, g.node_y.values, g.node_z.values, g.face_x.values, g.face_y.values, g.face_z.values])
     return "(%s %s %s)" % (sx(c["table"]), vecs_sx(v[0], v[1], v[2]), vecs_sx(v[3], v[4], v[5]))
+
+
+def run_model_parallel(ck, cmd, lines, workers=8):
+    """the extracted driver is a line filter: split the lines over a few processes"""
+    from concurrent.futures import ThreadPoolExecutor
+    if len(lines) < 4 * workers:
+        return ck.run_model(cmd, lines)
+    chunks = [lines[i::workers] for i in range(workers)]
+    with ThreadPoolExecutor(workers) as ex:
+        outs = list(ex.map(lambda ch: ck.run_model(cmd, ch), chunks))
+    res = [None] * len(lines)
+    for w, out in enumerate(outs):
+        for j, o in enumerate(out):
+            res[w + j * workers] = o
+    return res
 
 
 def run_impl(ck, c):
@@ -557,7 +574,7 @@ def main(ck):
             if res is not None:
                 lines.append(model_line(c, res["g"]))
                 owners.append(ci)
-        mo = ck.run_model("c18dual", lines) if lines else []
+        mo = run_model_parallel(ck, "c18dual", lines) if lines else []
         for ci, m in zip(owners, mo):
             models[ci] = m
     tm["model"] = round(time.time() - t0, 1)
